@@ -11,6 +11,7 @@ import (
 	"net/http/httptest"
 	"net/url"
 	"slices"
+	"strings"
 	"sync"
 	"testing"
 	"time"
@@ -38,6 +39,9 @@ type c20PAlert struct {
 	StartMin    int               `json:"start_min"` // StartsAt = base - StartMin minutes
 	EndMin      int               `json:"end_min"`   // resolved: EndsAt = now - 24h - EndMin minutes; firing: 0 => zero EndsAt, else now + 24h + EndMin minutes
 	GenURL      string            `json:"generator_url"`
+	// Timeout: the end time was derived from resolve_timeout (the alert was submitted without one): the API marks such
+	// alerts, the payload treats them like any other
+	Timeout bool `json:"timeout,omitempty"`
 }
 
 type c20PayloadScenario struct {
@@ -111,6 +115,7 @@ func genC20PAlerts(t *rapid.T, minN, maxN int) []c20PAlert {
 		a.Resolved = rapid.IntRange(0, 9).Draw(t, "res") < pResolved
 		a.StartMin = rapid.IntRange(24*60+1, 24*60+600).Draw(t, "start")
 		a.EndMin = rapid.IntRange(0, 300).Draw(t, "end")
+		a.Timeout = rapid.IntRange(0, 2).Draw(t, "timeoutEnd") == 0
 		a.GenURL = rapid.SampledFrom([]string{"", "http://prom/graph?g0.expr=up", "http://x/世"}).Draw(t, "gen")
 		out = append(out, a)
 	}
@@ -138,6 +143,7 @@ func c20BuildAlerts(as []c20PAlert, now time.Time) []*types.Alert {
 				GeneratorURL: a.GenURL,
 			},
 			UpdatedAt: now,
+			Timeout:   a.Timeout,
 		}
 		switch {
 		case a.Resolved:
@@ -587,5 +593,59 @@ func TestC20RetrierCheck(t *testing.T) {
 		Property: "C20", Name: "C20RetrierCheck",
 		Rule: "notify.Retrier.Check on status codes 100-599 (biased to the configured RetryCodes), 0-3 RetryCodes, nil / arbitrary bodies, with and without CustomDetailsFunc: 2xx => (false, nil); 5xx or listed => (true, error); anything else => (false, error). Non-trivial: code is not 2xx.",
 		Gen:  genC20Retrier, Exec: execC20Retrier,
+	})
+}
+
+// C05Payload: "the next flush lists it as resolved" is a statement about what the receiver is handed: the C20Payload
+// and C20Webhook cases judged only for the per-alert status and end time of the listed alerts and the overall status
+// (an alert whose end has passed, whether that end was submitted or derived from resolve_timeout, is listed as
+// resolved with that end).
+func c05PayloadKinds(res pbt.Result) pbt.Result {
+	kept := res.Violations[:0]
+	for _, v := range res.Violations {
+		switch {
+		case strings.HasSuffix(v.Kind, "alert-status"), strings.HasSuffix(v.Kind, "alert-endsAt"), strings.HasSuffix(v.Kind, "-status"), v.Kind == "harness":
+			kept = append(kept, v)
+		default:
+			res.Class("other-property-kind:" + v.Kind)
+		}
+	}
+	res.Violations = kept
+	return res
+}
+
+func TestC05Payload(t *testing.T) {
+	pbt.Run(t, pbt.Spec[c20PayloadScenario]{
+		Property: "C05", Name: "C05Payload",
+		Rule: "the C20Payload cases (batches of firing and resolved alerts, a third of the alerts with an end derived from resolve_timeout) judged for C05 only: in the data handed to templates every alert whose end has passed is listed with status resolved and its end time, the others as firing, and the overall status is firing iff one of them fires. Non-trivial: the batch holds a resolved alert whose end was derived from resolve_timeout.",
+		Gen:  genC20Payload,
+		Exec: func(sc c20PayloadScenario) pbt.Result {
+			res := c05PayloadKinds(execC20Payload(sc))
+			res.NonTrivial = false
+			for _, a := range sc.Alerts {
+				if a.Resolved && a.Timeout {
+					res.NonTrivial = true
+				}
+			}
+			return res
+		},
+	})
+}
+
+func TestC05Webhook(t *testing.T) {
+	pbt.Run(t, pbt.Spec[c20WebhookScenario]{
+		Property: "C05", Name: "C05Webhook",
+		Rule: "the C20Webhook cases (the real webhook integration posting to a loopback endpoint) judged for C05 only: in the JSON body every listed alert whose end has passed has status resolved and its end time, and the overall status is firing iff a listed alert fires. Non-trivial: the batch holds a resolved alert whose end was derived from resolve_timeout.",
+		Gen:  genC20Webhook,
+		Exec: func(sc c20WebhookScenario) pbt.Result {
+			res := c05PayloadKinds(execC20Webhook(sc))
+			res.NonTrivial = false
+			for _, a := range sc.Alerts {
+				if a.Resolved && a.Timeout {
+					res.NonTrivial = true
+				}
+			}
+			return res
+		},
 	})
 }
